@@ -3,7 +3,7 @@
    read back, checked against write_object / read_object by vm_compute. *)
 From Coq Require Import String List NArith ZArith Bool.
 From J5V.lib Require Import Outcome Corr.
-From J5V.model Require Import RulesDecl RulesWrite RulesRead RulesCorr.
+From J5V.model Require Import RulesDecl RulesWrite RulesRead RulesEnum RulesCorr.
 Import ListNotations.
 
 Definition oZ_eq_dec : forall a b : option Z, {a = b} + {a <> b}.
@@ -63,8 +63,17 @@ Definition c04_proj (o : fout) : fout :=
 (* an object: environment, declared properties, the annotations emitted for
    them, and what the reflector read back (None: a reflected property the
    declaration language cannot express) *)
+Definition value3_eq_dec : forall a b : str * Z * str, {a = b} + {a <> b}.
+Proof. decide equality; [apply str_eq_dec | decide equality; [apply Z.eq_dec | apply str_eq_dec]]. Defined.
+Definition enum_out_eq_dec : forall a b : enum_out, {a = b} + {a <> b}.
+Proof. decide equality; [apply list_eq_dec; apply value3_eq_dec | apply str_eq_dec]. Defined.
+Definition renum_eq_dec : forall a b : renum, {a = b} + {a <> b}.
+Proof. decide equality; try apply str_eq_dec; apply list_eq_dec; apply value3_eq_dec. Defined.
+
 Inductive c04case :=
-| C04Case (env : enum_env) (ds : list prop) (obs : list fout) (refl : outcome (list (option rprop))).
+| C04Case (env : enum_env) (ds : list prop) (obs : list fout) (refl : outcome (list (option rprop)))
+(* an enum: declaration, the compiled enum, the reflected enum schema *)
+| C04Enum (e : enum_decl) (obs : enum_out) (refl : outcome renum).
 
 Definition c04_check (c : c04case) : bool :=
   match c with
@@ -76,6 +85,14 @@ Definition c04_check (c : c04case) : bool :=
       match read_object env obs, refl with
       | Ok ps, Ok rs =>
           list_eqb2 (fun p r => match r with Some r => rprop_eqb p r | None => false end) ps rs
+      | Err _, Err _ => true
+      | Panic _, Panic _ => true
+      | _, _ => false
+      end
+  | C04Enum e obs refl =>
+      (if enum_out_eq_dec (write_enum e) obs then true else false) &&
+      match read_enum obs, refl with
+      | Ok a, Ok b => if renum_eq_dec a b then true else false
       | Err _, Err _ => true
       | Panic _, Panic _ => true
       | _, _ => false
